@@ -118,9 +118,18 @@ inductive ArgsResult where
   | notArray | wrongLength | decodeEach (pairs : List (Nat × Bytes))   -- (target index, element text) to decode
   deriving DecidableEq, Repr
 
+/-- the text `null`, with JSON blanks around it -/
+def isNullText (bs : Bytes) : Bool :=
+  ((bs.dropWhile Jrpc.Json.isSpace).reverse.dropWhile Jrpc.Json.isSpace).reverse == [110, 117, 108, 108]
+
+/-- what `json.Unmarshal(data, &elts)` with `elts []json.RawMessage` yields: the elements of an
+array; `null` leaves the slice nil, i.e. no elements; anything else is an error -/
+def argsElements (data : Bytes) : Option (List Bytes) :=
+  if isNullText data then some [] else Jrpc.Json.elements data
+
 /-- `Args.UnmarshalJSON`: `targets[i] = false` marks a nil slot -/
 def argsUnmarshal (targets : List Bool) (data : Bytes) : ArgsResult :=
-  match Jrpc.Json.elements data with
+  match argsElements data with
   | none => .notArray
   | some elts =>
     if elts.length ≠ targets.length then .wrongLength
